@@ -37,7 +37,8 @@ func verifABI() abi.ABI {
 	} {
 		m[name] = abi.Method{Name: name, Inputs: make(abi.Arguments, n)}
 	}
-	return abi.ABI{Methods: m, Events: map[string]abi.Event{EventTypeRegisterAVSTask: {Inputs: make(abi.Arguments, 8)}}}
+	return abi.ABI{Methods: m, Events: map[string]abi.Event{EventTypeRegisterAVSTask: {
+		Inputs: verifOutputs("uint64", "string", "string", "bytes", "uint64", "uint64", "uint64", "uint64")}}}
 }
 
 // verifStateDB records emitted logs; nothing else of the EVM state is touched by the handlers.
